@@ -1,8 +1,8 @@
 (** C18 — PageRank converges to the solution of its documented equation.
     Statements and [Print Assumptions] only.  The model (Algo/PageRankQ.v) is over exact
-    rationals; f64 rounding and the racy reads of the parallel sweep are outside it (the
-    error bound of the asynchronous sweep, [S_error_bound], is stated in
-    Algo/PageRankStatements.v and NOT proved). *)
+    rationals: the racy reads of the parallel sweep are modelled as an arbitrary write order
+    plus an arbitrary choice, per read, between the old and the new value; f64 rounding is
+    outside the model. *)
 From WG Require Import Algo.PageRankQ Algo.PageRankStatements Algo.PageRankFacts.
 Local Open Scope Q_scope.
 
@@ -53,6 +53,12 @@ Theorem C18_async_error_bound : S_async_error_bound.
 Proof. exact async_error_bound_thm. Qed.
 Print Assumptions C18_async_error_bound.
 
+(** the same for the executable sweep model: every write order, every staleness choice,
+    every start vector; the bound is exactly the norm delta the code reports *)
+Theorem C18_error_bound : S_error_bound.
+Proof. exact error_bound_thm. Qed.
+Print Assumptions C18_error_bound.
+
 (** what the run-time oracle uses: an accepted certificate is the unique solution,
     non-negative, of sum one in the stochastic modes *)
 Theorem C18_certified_oracle : S_certified_oracle.
@@ -74,4 +80,26 @@ Proof.
   - intros md; destruct md; eexists; (split; [vm_compute; reflexivity|vm_compute; reflexivity]).
   - eexists; split; [vm_compute; reflexivity|vm_compute; reflexivity].
   - vm_compute. repeat split.
+Qed.
+
+(** non-vacuity of the error bound: a sweep in reverse write order with a mixed staleness
+    pattern that neither starts at nor reaches the solution *)
+Example C18_error_bound_nonvacuous :
+  let gt := [[0;1]; [0]; [0;1]; [3]; []]%nat in
+  let v := [1#2; 1#8; 1#8; 1#8; 1#8] in
+  let a := 85 # 100 in
+  let order := rev (seq 0 5) in
+  let stale := fun i j => Nat.even (i + j) in
+  exists sol, certified gt a v WeaklyPreferential sol = true
+  /\ Permutation.Permutation order (seq 0 5) /\ length v = length gt
+  /\ (let '(xs', _, nrm) := sweep gt a v WeaklyPreferential order stale v
+                                  (dangling_rank 5 (predf gt) (vecf v)) in
+      0 < l1dist xs' sol /\ 0 < nrm).
+Proof.
+  cbv zeta.
+  destruct (pr_solve [[0;1]; [0]; [0;1]; [3]; []]%nat (85 # 100) [1#2; 1#8; 1#8; 1#8; 1#8] WeaklyPreferential)
+    as [sol|] eqn:E; [|vm_compute in E; discriminate].
+  exists sol. vm_compute in E. injection E as <-.
+  split; [vm_compute; reflexivity|]. split; [apply Permutation.Permutation_sym, Permutation.Permutation_rev|].
+  split; [reflexivity|]. vm_compute. split; reflexivity.
 Qed.
